@@ -206,6 +206,11 @@ carquet_status_t carquet_snappy_decompress(
         return CARQUET_ERROR_INVALID_COMPRESSED_DATA;
     }
 
+    /* A block ends with the element that completes the declared length */
+    if (ip != iend) {
+        return CARQUET_ERROR_INVALID_COMPRESSED_DATA;
+    }
+
     *dst_size = uncompressed_len;
     return CARQUET_OK;
 }
